@@ -487,18 +487,22 @@ Definition node_line (who t : Z) (p : path) (link : option Z) (root : bool) (x :
     obs_line who t p (valid x) md l (value_of x) rd dv
   end.
 
-Fixpoint read_tree (fuel : nat) (who t : Z) (p : path) (link : option Z) (root : bool) (s : tsd) : wire :=
+(* [cnt]: Some true = producer view of a statically indexed node (append the notification count),
+   Some false = producer view below a dictionary (append -1), None = a consumer's view (nothing appended) *)
+Fixpoint read_tree (fuel : nat) (who t : Z) (p : path) (link : option Z) (root : bool) (cnt : option bool) (s : tsd) : wire :=
   match fuel with
   | O => []
   | S f =>
-    let me := node_line who t p link root s in
+    let me := node_line who t p link root s ++
+              match cnt with Some true => [ncnt_of s] | Some false => [-1] | None => [] end in
     match s with
     | Leaf _ _ => [me]
     | Fix _ _ _ kids =>
-      me :: concat (map (fun ic => read_tree f who t (p ++ [Z.of_nat (fst ic)]) link false (snd ic)) (combine (seq 0 (length kids)) kids))
+      me :: concat (map (fun ic => read_tree f who t (p ++ [Z.of_nat (fst ic)]) link false cnt (snd ic)) (combine (seq 0 (length kids)) kids))
     | Dict _ _ kids =>
       me :: ([24; who; t; Z.of_nat (length p)] ++ p ++ map fst kids)
-         :: concat (map (fun kc => read_tree f who t (p ++ [fst kc]) link false (snd kc)) kids)
+         :: concat (map (fun kc => read_tree f who t (p ++ [fst kc]) link false
+                                             (match cnt with Some _ => Some false | None => None end) (snd kc)) kids)
     end
   end.
 
@@ -521,7 +525,7 @@ Definition read_cons (who t : Z) (c : cons) (s : tsd) : wire :=
   if negb (c_bound c) then [[26; who; t]] else
   match get (c_path c) s with
   | None => [[26; who; t]]
-  | Some x => read_tree (depth x + 1) who t (c_path c) (Some (c_link c)) true x
+  | Some x => read_tree (depth x + 1) who t (c_path c) (Some (c_link c)) true None x
   end.
 
 (* ------------------------------------------------------------------ the simulated run *)
@@ -567,7 +571,7 @@ Fixpoint cycles (fuel : nat) (t e : Z) (h : hist) (m : sim) : sim :=
     let m1 := apply_ops t h m in
     let n := Z.of_nat (length (m_cons m1)) in
     let '(cs', w) := sinks t 1 n (m_cons m1) (m_cons m1) tree0 (m_tree m1) in
-    let rep := read_tree (depth (m_tree m1) + 1) 0 t [] None true (m_tree m1) ++ report t 1 cs' (m_tree m1) in
+    let rep := read_tree (depth (m_tree m1) + 1) 0 t [] None true (Some true) (m_tree m1) ++ report t 1 cs' (m_tree m1) in
     cycles f (t + 1) e h (mkSim (m_tree m1) cs' (rev rep ++ rev w ++ m_log m1))
   end.
 
